@@ -29,8 +29,13 @@ def near_miss(callee_json, k1, k2):
     how = None
     if kinds:
         kind, path = kinds[k1 % len(kinds)]
-        idx = ss.index((kind, path))
-        pseudo, applied = c03.perturb(pseudo, [[idx, k2]])
+        kinds_all = sorted({k for k, _ in ss})
+        of_kind = [x for x in ss if x[0] == kind]
+        want = of_kind.index((kind, path))
+        # invert c03.perturb's (kind, site) selection:  k1' % len(kinds) -> kind,  (k1' // len(kinds) + k2) % n -> site
+        kk = kinds_all.index(kind)
+        q = (want - k2) % len(of_kind)
+        pseudo, applied = c03.perturb(pseudo, [[kk + len(kinds_all) * q, k2]])
         c = pseudo["main"]
         how = applied
     if k2 % 4 == 3 or not kinds:
